@@ -130,8 +130,37 @@ def run(ctx):
     ctx.oblige('property oracle holds on the implementation for all %d trees' % len(cases), n_oracle_bad == 0,
                '%d trees fail; keys: %s' % (n_oracle_bad, sorted(by_key)))
 
+    # ---- measure -> edit through the public setters / deepcopy -> measure again (a tree that has been edited is a tree)
+    edits = data.get('edits', [])
+    by_key = {}
+    for i, h in enumerate(edits):
+        for key, msg, p, which, step in h['fails']:
+            best = by_key.get(key)
+            if best is None or size_of(h['shape']) < size_of(edits[best[0]]['shape']):
+                by_key[key] = (i, msg, p, step)
+    for key in sorted(by_key):
+        i, msg, p, step = by_key[key]
+        h = edits[i]
+        ctx.report('oracle:%s:after-edit' % key,
+                   'history measure -> deepcopy -> edit -> measure again on a real Node tree (%s, %d nodes, %s edited): %s'
+                   % (h['source'], size_of(h['shape']), 'original' if h['mode'] == 'orig' else 'copy', msg),
+                   {'kind': 'edit', 'oracle_key': key, 'shape': h['shape'], 'grow': h.get('grow'), 'mode': h['mode'],
+                    'script': h['script'], 'p': p, 'step': step, 'message': msg, 'source': h['source']})
+    n_edit_bad = sum(1 for h in edits if h['fails'])
+    ctx.oblige('property oracle holds on edited trees and on their untouched original/copy for all %d edit histories '
+               '(%d edits)' % (len(edits), sum(len(h['script']) for h in edits)), len(edits) > 0 and n_edit_bad == 0,
+               '%d histories fail; keys: %s' % (n_edit_bad, sorted(by_key)))
+    ctx.cov['edit_histories'] = {'histories': len(edits), 'edits': sum(len(h['script']) for h in edits),
+                                 'calls': sum(h['calls'] for h in edits), 'from_grow': sum(1 for h in edits if h.get('grow')),
+                                 'edited_original': sum(1 for h in edits if h['mode'] == 'orig'),
+                                 'edited_copy': sum(1 for h in edits if h['mode'] == 'copy')}
+    if edits:
+        ctx.sample({'edit_history': {'shape': edits[0]['shape'], 'mode': edits[0]['mode'], 'script': edits[0]['script'],
+                                     'final_shape': edits[0]['final_shape']}})
+
     # ---- coverage
-    n_eval = sum(6 + len(c['obs']['find']) for c in cases)
+    n_corr = sum(6 + len(c['obs']['find']) for c in cases)
+    n_eval = n_corr + sum(h['calls'] for h in edits)
     distinct = set(json.dumps(c['shape']) for c in cases if size_of(c['shape']) >= 2)
     ctx.count(n_eval, len(distinct))
     dist = {}
@@ -146,7 +175,10 @@ def run(ctx):
                        'full tree of depth 5) in two labellings; trees grown by TreeSpace.grow over random '
                        'subsets of the ten functions. evaluations = calls of the real properties/methods (4 measurements + 2 '
                        'orders + find_node(p) for every p in [0, size+1] per tree); distinct_nontrivial = distinct labelled '
-                       'shapes with at least 2 nodes. The depth<=3 part is exhaustive, the rest is sampled (exhaustive=false overall).')
+                       'shapes with at least 2 nodes. Edit histories: a seeded sample of these trees (>= 3 nodes, depth >= 2; one third GROW) is '
+                       'measured, deep-copied, edited 1-3 times through node.left/right = new sub-tree at depth >= 1 / >= 2 (parent/flag '
+                       'set as GP._mutate does), and the full oracle is re-run on the edited tree and on the untouched original/copy after '
+                       'every edit. The depth<=3 part is exhaustive, the rest is sampled (exhaustive=false overall).')
     ctx.cov['exhaustive'] = False
     ctx.cov['programs'] = len(cases)
     mid = cases[len(cases) // 3]
@@ -186,7 +218,7 @@ def run(ctx):
         bad += [(starts[k] + i, code) for i, code in b]
     in_text = [(i, code) for i, code in bad if code & 15]
     ctx.oblige('correspondence: model (props_bfs, pre_stack, post_stack, find_node_tbl) = real Node methods on %d trees, '
-               '%d calls' % (len(cases), n_eval), not in_text,
+               '%d calls' % (len(cases), n_corr), not in_text,
                'mismatching (case, bits): %s' % in_text[:10])
     heap_bad = [i for i, code in bad if code & 16]
     drift = [i for i, code in bad if code & 32]
